@@ -7,7 +7,7 @@ from fractions import Fraction
 
 import numpy as np
 
-from ..core import fmt_list, fmt_ints, fmt_opt, parse_rats, frac, err_kind, close, pw_field, floats
+from ..core import fmt_list, fmt_ints, fmt_opt, parse_rats, frac, err_kind, close, vclose, pw_field, floats
 from .c10 import spec as search_spec
 
 ID = "C01"
@@ -93,6 +93,18 @@ def gen_valid(rng, maxn):
             fpi.append(fpi[0])
     yref = rng.values(len(xref))
     alpha = rng.choice(ALPHAS_INT) if rng.random() < 0.6 else rng.choice(ALPHAS_TAB)
+    if rng.random() < 0.15:
+        # small units: values (and sometimes abscissae) of tiny magnitude, exactly representable; an absolute tolerance
+        # somewhere in the computation would treat the integral deficits as zero
+        sy = Fraction(1, 2 ** rng.choice([20, 30, 40]))
+        y = [v * sy for v in y]
+        yref = [v * sy for v in yref]
+        if rng.random() < 0.5:
+            sx = Fraction(1, 2 ** rng.choice([6, 10]))
+            x = [v * sx for v in x]
+            xref = [v * sx for v in xref]
+            if fpx is not None:
+                fpx = [v * sx for v in fpx]
     return {"x": [str(v) for v in x], "y": [str(v) for v in y], "xref": [str(v) for v in xref],
             "yref": [str(v) for v in yref],
             "fpx": None if fpx is None else [str(v) for v in fpx], "fpi": fpi,
@@ -220,10 +232,15 @@ def compare(c, io, mo):
     if not m.startswith("ok "):
         return f"impl returned values, model says {m}"
     mv = parse_rats(m[3:])
-    if not close(io["ok"], mv):
-        diffs = [(i, a, float(b)) for i, (a, b) in enumerate(zip(io["ok"], mv)) if abs(a - float(b)) > 1e-9 * max(1, abs(float(b)))]
+    if not vclose(io["ok"], mv, 1e-9, ref=[Fraction(v) for v in c["y"]]):
+        diffs = [(i, a, float(b)) for i, (a, b) in enumerate(zip(io["ok"], mv)) if abs(a - float(b)) > 1e-9 * abs(float(b))]
         return f"values differ (first {diffs[:3]}, len impl {len(io['ok'])} model {len(mv)})"
     return None
+
+
+def integ_scale(x, y, s, e):
+    """magnitude of the quantities an interval integral is made of: sum |y| * dx"""
+    return float(sum(max(abs(y[i]), abs(y[min(i + 1, len(y) - 1)])) * (x[i + 1] - x[i]) for i in range(s, e))) or 1e-300
 
 
 def integ(rule, x, y, s, e):
@@ -271,12 +288,13 @@ def oracle(c, io):
     for k in range(len(F) - 1):
         got = integ(c["target"], x, z, F[k], F[k + 1])
         want = integ(c["ref"], xref, yref, R[k], R[k + 1])
-        if abs(float(got - want)) > 1e-8 * max(1.0, abs(float(want))):
+        sc = max(integ_scale(x, z, F[k], F[k + 1]), integ_scale(xref, yref, R[k], R[k + 1]))
+        if abs(float(got - want)) > 1e-8 * sc:
             return (f"interval {k} between fixed samples {F[k]}..{F[k+1]}: {c['target']} integral of the result is "
                     f"{float(got)!r}, {c['ref']} integral of the reference is {float(want)!r}")
     got = integ(c["target"], x, z, F[0], F[-1])
     want = integ(c["ref"], xref, yref, R[0], R[-1])
-    if abs(float(got - want)) > 1e-8 * max(1.0, abs(float(want))):
+    if abs(float(got - want)) > 1e-8 * max(integ_scale(x, z, F[0], F[-1]), integ_scale(xref, yref, R[0], R[-1])):
         return f"total between first and last fixed point {float(got)!r} != reference total {float(want)!r}"
     return None
 
